@@ -143,11 +143,13 @@ Definition denote (origin : bytes) (default : option N) (es : list entry) : opti
    spelling of a mnemonic and the stale code carried by other tokens are free. *)
 Record stok := mkSk { k_val : tval; k_text : bytes; k_torc : N }.
 Definition text_matters (v : tval) : bool :=
-  match v with ZString | ZOwner => true | _ => false end.
+  match v with ZString | ZOwner | ZQuote => true | _ => false end.
 Definition torc_matters (v : tval) : bool :=
   match v with ZRrtpe | ZClass => true | _ => false end.
 Definition realizes (t : tok) (k : stok) : Prop :=
-  t_val t = k_val k /\ t_err t = false /\ t_text t <> [] /  (text_matters (k_val k) = true -> t_text t = k_text k) /  (torc_matters (k_val k) = true -> t_torc t = k_torc k).
+  t_val t = k_val k /\ t_err t = false /\ ~ (t_text t = []) /\
+  (text_matters (k_val k) = true -> t_text t = k_text k) /\
+  (torc_matters (k_val k) = true -> t_torc t = k_torc k).
 
 Definition sk_blank : stok := mkSk ZBlank [32] 0.
 Definition sk_nl : stok := mkSk ZNewline [10] 0.
